@@ -15,6 +15,7 @@ pub use super::combiner::verif::{bit_vote_correct, bit_vote_detect, estimate_mes
 pub use super::dcblock::DCBlocker;
 pub use super::framing::verif::{message_prefix_errors, prefix_search_len};
 pub use super::framing::Framer;
+pub use super::symsync::{SymbolEstimate, TimingLoop};
 
 use crate::message::MessageResult;
 
